@@ -502,6 +502,97 @@ Proof.
   - unfold ds_keys. rewrite R3. exact Hkeys.
 Qed.
 
+(* the remaining operations of the alphabet *)
+Theorem set_axis_inv r k labs name s :
+  Inv4 s -> (forall id n, ds_axis_ref s r = Ok id -> name = Some n -> ~ In n (ds_dims s) \/ n = aname (hget (heap s) id)) ->
+  Inv4 (fst (ds_set_axis r k labs name s)).
+Proof.
+  intros Hi Hn. unfold ds_set_axis. destruct (ds_axis_ref s r) as [id|] eqn:Er; [|exact Hi].
+  destruct (negb _); [exact Hi|]. cbv zeta.
+  set (ax' := {| aname := aname (hget (heap s) id); akind := _; alab := labs; aattrs := _; amem := _ |}).
+  assert (H1 : Inv4 (with_heap s (hset (heap s) id ax'))) by (apply inv4_hset; [exact Hi | right; reflexivity]).
+  destruct name as [n|]; [|exact H1].
+  apply rename_id_inv; [exact H1|].
+  destruct (Hn id n eq_refl eq_refl) as [Hf|He].
+  - left. unfold ds_dims in *. cbn [heap dsax with_heap]. intros Hin. apply Hf.
+    apply in_map_iff in Hin. destruct Hin as [j [Ej Hj]]. apply in_map_iff. exists j. split; [|exact Hj].
+    destruct (Nat.eq_dec j id) as [->|Hne]; [rewrite hget_hset_eq in Ej; exact Ej | rewrite hget_hset_neq in Ej by exact Hne; exact Ej].
+  - right. cbn [heap with_heap]. rewrite hget_hset_eq. exact He.
+Qed.
+
+Theorem var_rename_axis_inv k r n s :
+  Inv4 s -> (forall v i, find_var s k = Some v -> axis_info (var_as_darr s v) r = Ok i ->
+             ~ In n (ds_dims s) \/ n = aname (hget (heap s) (nth i (vax v) 0))) ->
+  Inv4 (fst (ds_var_rename_axis k r n s)).
+Proof.
+  intros Hi Hn. unfold ds_var_rename_axis. destruct (find_var s k) as [v|] eqn:Ef; [|exact Hi].
+  destruct (axis_info _ r) as [i|] eqn:Ea; [|exact Hi]. apply rename_id_inv; [exact Hi | apply (Hn v i eq_refl Ea)].
+Qed.
+
+Fixpoint rename_axes_ok (s : dset) (m : list (string * string)) : Prop :=
+  match m with
+  | [] => True
+  | (o, n) :: t =>
+      (forall id, ds_axis_ref s (ByName o) = Ok id -> ~ In n (ds_dims s) \/ n = aname (hget (heap s) id)) /\
+      rename_axes_ok (fst (ds_rename_axis (ByName o) n s)) t
+  end.
+Lemma rename_axes_fold_inv m : forall s (st : res unit), Inv4 s -> (st = Ok tt -> rename_axes_ok s m) ->
+  Inv4 (fst (fold_left (fun (acc : dset * res unit) p => match snd acc with
+                                                         | Ok _ => ds_rename_axis (ByName (fst p)) (snd p) (fst acc)
+                                                         | Err e => acc end) m (s, st))).
+Proof.
+  induction m as [|[o n] t IH]; intros s st Hi Hok; simpl; [exact Hi|].
+  destruct st as [[]|e].
+  - destruct (Hok eq_refl) as [H1 H2].
+    destruct (ds_rename_axis (ByName o) n s) as [s1 st1] eqn:E.
+    assert (Hi1 : Inv4 s1).
+    { assert (G : Inv4 (fst (ds_rename_axis (ByName o) n s))).
+      { unfold ds_rename_axis. destruct (ds_axis_ref s (ByName o)) as [id|] eqn:Er; [|exact Hi]. apply rename_id_inv; [exact Hi | apply H1; reflexivity]. }
+      rewrite E in G. exact G. }
+    apply IH; [exact Hi1|]. intros _. simpl in H2. exact H2.
+  - apply IH; [exact Hi | intros; discriminate].
+Qed.
+Theorem rename_axes_inv m s : Inv4 s -> rename_axes_ok s m -> Inv4 (fst (ds_rename_axes m s)).
+Proof. intros Hi Hok. unfold ds_rename_axes. apply rename_axes_fold_inv; [exact Hi | intros _; exact Hok]. Qed.
+
+Theorem rename_key_inv o n s : Inv4 s -> (n = o \/ ~ In n (ds_keys s)) -> Inv4 (fst (ds_rename_key o n s)).
+Proof.
+  intros Hi Hn. pose proof Hi as [[Hsh [Hus Hwf]] Hkeys]. pose proof (rename_key_shared o n s Hsh) as Hsh'.
+  unfold ds_rename_key in *. destruct (find_var s o) as [v|] eqn:Ef; [|exact Hi].
+  destruct (String.eqb_spec o n) as [->|Hne]; [exact Hi|]. simpl in *.
+  destruct Hn as [->|Hfresh]; [contradiction|].
+  assert (Hv : In v (dvars s) /\ vkey v = o).
+  { unfold find_var in Ef. apply find_some in Ef. destruct Ef as [H1 H2]. apply String.eqb_eq in H2. auto. }
+  destruct Hv as [Hvin Hvk].
+  set (v' := {| vkey := n; vax := vax v; vvals := vvals v; vattrs := vattrs v |}) in *.
+  split; [split; [exact Hsh' | split; [|exact Hwf]]|].
+  - (* every dataset axis is still used: by the same variable, or by the renamed one *)
+    intros id Hid. destruct (Hus id Hid) as [w [Hw Hidw]].
+    destruct (String.eqb_spec (vkey w) o) as [Ew|Ew].
+    + (* w is the renamed variable (keys are unique) *)
+      assert (w = v) by (apply (find_var_unique s o w v Hkeys Hw Ew Ef)). subst w.
+      exists v'. split; [|exact Hidw]. apply filter_In. split; [apply put_var_has|]. simpl.
+      destruct (String.eqb_spec n o); [subst; contradiction | reflexivity].
+    + exists w. split; [|exact Hidw]. apply filter_In. split.
+      * apply put_var_keeps; [exact Hw|]. simpl. intros E. apply Hfresh. unfold ds_keys. rewrite <- E. apply in_map. exact Hw.
+      * destruct (String.eqb_spec (vkey w) o); [contradiction | reflexivity].
+  - (* keys stay distinct *)
+    unfold ds_keys. cbn [dvars]. apply NoDup_map_filter. apply put_var_keys. exact Hkeys.
+Qed.
+
+Lemma init_fold_inv l : forall s (st : res unit), Inv4 s ->
+  Inv4 (fst (fold_left (fun (acc : dset * res unit) (p : string * darr) => match snd acc with
+                                                                        | Ok _ => ds_setitem (fst p) (snd p) (fst acc)
+                                                                        | Err e => acc end) l (s, st))).
+Proof.
+  induction l as [|p t IH]; intros s st Hi; simpl; [exact Hi|].
+  destruct st as [[]|e]; [|apply IH; exact Hi].
+  destruct (ds_setitem (fst p) (snd p) s) as [s1 st1] eqn:E.
+  apply IH. pose proof (setitem_inv (fst p) (snd p) s Hi) as G. rewrite E in G. exact G.
+Qed.
+Theorem init_inv l : Inv4 (fst (ds_init l)).
+Proof. unfold ds_init. destruct (align _ _ _ _ _); [apply init_fold_inv; apply inv4_empty | apply inv4_empty]. Qed.
+
 (* what a history must respect for the bookkeeping invariant: new names are fresh *)
 Definition op_ok (s : dset) (o : dsop) : Prop :=
   match o with
@@ -509,20 +600,30 @@ Definition op_ok (s : dset) (o : dsop) : Prop :=
   | DRenameAxis r n => forall id, ds_axis_ref s r = Ok id -> ~ In n (ds_dims s) \/ n = aname (hget (heap s) id)
   | DReplaceAxis r nx => (forall id, ds_axis_ref s r = Ok id -> aname nx = aname (hget (heap s) id) \/ ~ In (aname nx) (ds_dims s))
                          /\ (forall id, ds_axis_ref s r = Ok id -> In id (dsax s))
-  | _ => False     (* the remaining operations are covered by [reachable_shared] only *)
+  | DVarRenameAxis k r n => forall v i, find_var s k = Some v -> axis_info (var_as_darr s v) r = Ok i ->
+                                       ~ In n (ds_dims s) \/ n = aname (hget (heap s) (nth i (vax v) 0))
+  | DRenameAxes m => rename_axes_ok s m
+  | DSetAxis r _ _ name => forall id n, ds_axis_ref s r = Ok id -> name = Some n -> ~ In n (ds_dims s) \/ n = aname (hget (heap s) id)
+  | DRenameKey o n => n = o \/ ~ In n (ds_keys s)
+  | DInit _ => True
   end.
 Fixpoint ops_ok (s : dset) (ops : list dsop) : Prop :=
   match ops with [] => True | o :: t => op_ok s o /\ ops_ok (fst (ds_step s o)) t end.
 
 Theorem step_inv s o : Inv4 s -> op_ok s o -> Inv4 (fst (ds_step s o)).
 Proof.
-  intros Hi Hok. destruct o; simpl in *; try contradiction.
+  intros Hi Hok. destruct o; simpl in *.
   - apply setitem_inv; exact Hi.
   - apply delitem_inv; exact Hi.
   - unfold ds_rename_axis. destruct (ds_axis_ref s r) as [id|] eqn:E; [|exact Hi]. apply rename_id_inv; [exact Hi | apply Hok; reflexivity].
+  - apply var_rename_axis_inv; assumption.
   - apply set_dims_inv; exact Hi.
+  - apply rename_axes_inv; assumption.
   - apply set_label_inv; exact Hi.
+  - apply set_axis_inv; assumption.
   - apply replace_axis_inv; [exact Hi | apply Hok | apply Hok].
+  - apply rename_key_inv; assumption.
+  - apply init_inv.
 Qed.
 
 (* every state reachable from the empty dataset by such a history: variables share the dataset's axis
